@@ -15,7 +15,7 @@ RULE = ('case = one direct call of a helper of bits_ops.py / shift.py compared w
         'exhaustively for widths 1..8 (all operands, shifts 0..2w+2, both carries), all 2x4096 modified immediates '
         'with both carries, all (type, imm5), corner+random operands at widths 32 and 64 with every shift 0..255; '
         'fields: every in-range value for fields <= 8 bits (corners beyond) over zero / ones / random backgrounds; '
-        'non-trivial = result differs from the first operand or the write changes the register; distinct = '
+        'RGNR.REGION under eight configured region counts; non-trivial = result differs from the first operand or the write changes the register; distinct = '
         '(function, width, shift class) or (class.field, value class, background)')
 ASSUMPTIONS = ['vf/ref/bits.py transcribes the ARM ARM pseudocode functions',
                'the field table in this file is the architectural bit assignment (DDI 0406C B3/B4/B6, ARM1176 TRM for '
